@@ -52,16 +52,21 @@ func (op *FsTxn) CommitUnstable() bool {
 	return op.commitWait(false)
 }
 
-// Flush log. We don't have to flush data from other file handles, but
-// that is only an option if we do log-by-pass writes.
+// Make everything committed so far durable (NFS COMMIT). We don't have to
+// flush data from other file handles, but that is only an option if we do
+// log-by-pass writes.
+//
+// Txn.Flush() waits for the log position the journal remembers from the last
+// commit, and a transaction the journal refused resets that position: Flush()
+// then waits for nothing, and COMMIT would acknowledge data that is still only
+// in memory. Commit this transaction stably instead, with its (locked) inodes
+// written back unchanged so that it is not empty: the log is written in
+// order, so everything committed before it becomes durable with it.
 func (op *FsTxn) CommitFh() bool {
-	verifEvent("flush-start", op, 0)
-	op.preCommit()
-	ok := op.Fs.Txn.Flush()
-	verifEvent("flush-done", op, verifBool(ok))
-	op.postCommit()
-	verifEvent("commit-end", op, verifBool(ok))
-	return ok
+	for _, ip := range op.inodes {
+		ip.WriteInode(op.Atxn)
+	}
+	return op.commitWait(true)
 }
 
 // An aborted transaction may free an inode, which results in dirty
